@@ -274,7 +274,16 @@ func trunc(s string, n int) string {
 // Every operation is performed with pooled coders and, as the model, with brand-new ones; results must agree.
 func TestPoolHygiene(t *testing.T) {
 	inputs := []string{`s5"hello"`, `a2{s2"ab"r1;}`, `a2{s2"ab"r5;}`, `a3{1`, `m1{s1"k"a2{s2"xy"r3;}}`, `c5"Plain"3{s1"a"s1"b"s1"c"}o0{7s2"xy"d1.5;}`, `o0{1}`, `r0;`, `a2{c5"Plain"3{s1"a"s1"b"s1"c"}o0{7s2"xy"d1.5;}o0{8r5;d2.5;}}`, `i12`, `zzz`, `a2{s3"abc"s3"abc"}`}
-	values := []interface{}{"hello", []string{"ab", "ab", "cd", "ab"}, map[string]interface{}{"k": []string{"xy", "xy"}}, uni.Plain{A: 1, B: "bb", C: 2}, []*uni.Plain{{A: 1, B: "p"}, {A: 1, B: "p"}}, 12345, []interface{}{"s", "s", 1.5}}
+	values := []interface{}{"hello", []string{"ab", "ab", "cd", "ab"}, map[string]interface{}{"k": []string{"xy", "xy"}}, uni.Plain{A: 1, B: "bb", C: 2}, []*uni.Plain{{A: 1, B: "p"}, {A: 1, B: "p"}}, 12345, []interface{}{"s", "s", 1.5},
+		// encodes that fail (an unsupported member, a year the format cannot hold), with little and with much output
+		// before the failure, and a large one that succeeds: the next user of the pooled encoder must not notice
+		[]interface{}{"x", make(chan int)},
+		[]interface{}{strings.Repeat("y", 70000), make(chan int)},
+		strings.Repeat("z", 70000),
+		[]interface{}{strings.Repeat("w", 200000), time.Date(10000, 1, 1, 0, 0, 0, 0, time.UTC)},
+		[]interface{}{"v", func() {}},
+	}
+	failing := map[int]bool{7: true, 8: true, 10: true, 11: true}
 	service := core.NewService()
 	service.AddFunction(func(a, b string) string { return a + b }, "cat")
 	ev.Steps(ev.Pick(40, 80))
@@ -331,11 +340,13 @@ func TestPoolHygiene(t *testing.T) {
 				hist = append(hist, fmt.Sprintf("encode(#%d,simple=%v,twice=%v)", vi, simple, twice))
 				ev.S.Begin("pool-hygiene", desc())
 				run := func(enc *hio.Encoder) string {
-					enc.Encode(values[vi])
-					if twice {
+					p := guard(func() {
 						enc.Encode(values[vi])
-					}
-					return string(enc.Bytes()) + fmt.Sprint(enc.Error)
+						if twice {
+							enc.Encode(values[vi])
+						}
+					})
+					return string(enc.Bytes()) + fmt.Sprint(enc.Error) + p
 				}
 				pe := hio.GetEncoder().Simple(simple)
 				got := run(pe)
@@ -344,11 +355,24 @@ func TestPoolHygiene(t *testing.T) {
 				if afterBad {
 					interesting = true
 				}
-				if !simple {
+				if !simple || failing[vi] {
 					afterBad = true
 				}
 				if got != want {
+					if len(got) > 300 {
+						got = got[:150] + "…" + got[len(got)-150:]
+					}
+					if len(want) > 300 {
+						want = want[:150] + "…" + want[len(want)-150:]
+					}
 					fail(fmt.Sprintf("pooled encoder produced %q; a brand-new encoder produces %q", got, want))
+				}
+				// the package-level entry point uses the pool as well
+				data, err := hio.Marshal(values[vi])
+				fresh := new(hio.Encoder).Simple(true)
+				fresh.Encode(values[vi])
+				if fmt.Sprint(err) != fmt.Sprint(fresh.Error) || (err == nil && string(data) != string(fresh.Bytes())) {
+					fail(fmt.Sprintf("Marshal returned %d bytes, error %v; a brand-new encoder produces %d bytes, error %v", len(data), err, len(fresh.Bytes()), fresh.Error))
 				}
 			},
 			"rpc": func(rt *rapid.T) {
